@@ -28,7 +28,7 @@ func init() {
 		if tier == "thorough" {
 			n = 900
 		}
-		return Plan{Runs: n, Race: true, Level: "exploration", Rule: "one run = seven concurrent phases (cold-start handshakes; first use of a new multi-URL location while a refresh tick runs; handshakes overtaking a slow background first load; handshakes vs tick vs UpdateCRL vs forced background refresh; handshakes after a refresh that failed signature verification, then racing the refresh that recovers from it; OCSP lookups around cache expiry; handshakes vs Cleanup) with 2-6 client tasks over 1-2 validators, backend, fetch mode and preemption density drawn per run, executed under the race detector; non-trivial = at least 10 task switches happened inside a phase; distinct = distinct schedule fingerprints"}
+		return Plan{Runs: n, Race: true, Level: "exploration", Rule: "one run = eight concurrent phases (cold-start handshakes; concurrent first use of a location whose first download fails through all its retries; first use of a new multi-URL location while a refresh tick runs; handshakes overtaking a slow background first load; handshakes vs tick vs UpdateCRL vs forced background refresh; handshakes after a refresh that failed signature verification, then racing the refresh that recovers from it; OCSP lookups around cache expiry; handshakes vs Cleanup) with 2-6 client tasks over 1-2 validators, backend, fetch mode and preemption density drawn per run, executed under the race detector; non-trivial = at least 10 task switches happened inside a phase; distinct = distinct schedule fingerprints"}
 	}, Run: runC13})
 }
 
@@ -203,6 +203,44 @@ func runC13(h *Harness) {
 			v := errStr(c.hs.Err)
 			if strict && ((listed && v != "revoked") || (!listed && v != "accept")) {
 				h.Violation("C13.verdict", "first-use-overtakes-background-load", "phase 1c: %s on a location whose background first load was overtaken by a handshake returned %s", c.class, v)
+			}
+		}
+	}
+	// ---------------------------------------------------------------- phase 1d: concurrent first use, the first download fails
+	// Two to four handshakes meet a new location at once; whoever downloads first is refused through all its retries,
+	// the next one is served. A handshake whose OWN download was delivered (or that found the list loaded) answers from
+	// the list; only a handshake whose own download failed may answer "nothing loaded".
+	if fetch != "fetch_background" {
+		l8 := w.NewLocation(LocOpts{Name: "L8", URL: "http://crl8.sim/h.crl", Issuer: w.A, NVers: 1, Extra: 2, Width: 15, Base: 8})
+		l8.FailFirst = 5 // one load = five attempts
+		n0 := nodes[0]
+		cs = nil
+		for i := 0; i < 2+tp.Int(3); i++ {
+			cs = append(cs, spawn(n0, l8, Pick(tp, "common", "never", "common"), nil))
+		}
+		waitAll(cs)
+		h.Settle(30 * time.Second)
+		for _, c := range cs {
+			h.R.Checks++
+			ownOK, ownFailed := false, false
+			for _, x := range h.Net.Hits {
+				if x.URL == l8.URL && x.Task == c.hs.Task.Key {
+					if x.D.Intact {
+						ownOK = true
+					} else {
+						ownFailed = true
+					}
+				}
+			}
+			listed := l8.Lists(0, c.serial)
+			v := errStr(c.hs.Err)
+			exact := (listed && v == "revoked") || (!listed && v == "accept")
+			unloaded := (strict && strings.HasPrefix(v, "error(")) || (!strict && v == "accept")
+			if !exact && !(ownFailed && !ownOK && unloaded) {
+				h.Violation("C13.verdict", "concurrent-first-use:failed-load-of-another-handshake-decides", "phase 1d: %s (listed=%v) returned %s although its own download of the list was %s: no sequential order of the handshakes gives that verdict", c.class, listed, v, map[bool]string{true: "delivered", false: "not needed (somebody else had loaded the list)"}[ownOK])
+			}
+			if ownOK {
+				h.Probe("phase1d:own-download-after-anothers-failure")
 			}
 		}
 	}
